@@ -211,7 +211,8 @@ def run(ctx, deep=False):
                 for t in (temps if k == 0 else temps[::7]):
                     calls.append(("ac", ac["id"], "set_target_temperature", [repr(t)], st))
                 for tt in A.AcTimerType:
-                    calls.append(("ac", ac["id"], "set_quick_timer", [tt.name, "duration", "5400"], st))
+                    for secs in ("5400", "59", "57600", "59400", "86340", "90000", "172740"):
+                        calls.append(("ac", ac["id"], "set_quick_timer", [tt.name, "duration", secs], st))
                     for (h, m) in ((6, 30), (23, 59), (0, 0)):
                         calls.append(("ac", ac["id"], "set_quick_timer", [tt.name, "time", str(h), str(m)], st))
                     calls.append(("ac", ac["id"], "clear_quick_timer", [tt.name], st))
@@ -265,6 +266,15 @@ def run(ctx, deep=False):
                 except Exception as e:  # noqa: BLE001  (unencodable: the socket logs it and nothing reaches the wire)
                     ctx.count("%d:%s.%s:unencodable:%s" % (gen, target, method, type(e).__name__))
                     continue
+                if method == "set_quick_timer" and len(args) > 1 and args[1] == "duration":
+                    # quick-timer message (0x1F FF20 / FF49, layout reverse-engineered upstream): AC, timer type (0 off / 1 on), hours, minutes
+                    # of the requested duration truncated to whole minutes (hours modulo 24 - the field has no days)
+                    secs = int(args[2])
+                    want = bytes([ident, 1 if args[0] == "ON_TIMER" else 0, (secs // 3600) % 24, (secs // 60) % 60])
+                    if mb[2:] != want:
+                        ctx.violation("C04:%d:ac.set_quick_timer" % gen, "AirTouch %d ac %d set_quick_timer(%s, %s s): the quick-timer message carries %s, the request means %s "
+                                      "(AC, type, hours, minutes)" % (gen, ident, args[0], secs, mb[2:].hex(), want.hex()), kind="input",
+                                      call=[gen, ci, target, ident, method, args], implementation_output=mb.hex(), spec_verdict=want.hex())
                 if "quick_timer" in method and not (len(args) > 1 and args[1] == "duration"):
                     why_t = timer_meaning(gen, ident, method, args, mb, reported.get(ident))
                     if why_t:
